@@ -1018,6 +1018,20 @@ fn extract<'tcx>(tcx: TyCtxt<'tcx>) {
             }
         }
         v.push(("generics", J::A(gn)));
+        // the trait bounds in force for this item (its own and those of the impl / trait it sits in): "Ty: path::Trait"
+        {
+            let mut bs: Vec<J> = vec![];
+            let root = tcx.typeck_root_def_id(did);
+            let preds = tcx.predicates_of(root).instantiate_identity(tcx);
+            for p in preds.predicates.iter() {
+                let p = p.skip_norm_wip();
+                if let Some(tp) = p.as_trait_clause() {
+                    let tr = tp.skip_binder();
+                    bs.push(s(format!("{}: {}", cx.tys(tr.self_ty()), cx.path(tr.def_id()))));
+                }
+            }
+            v.push(("bounds", J::A(bs)));
+        }
         v.push(("pre", cx.body(did, body)));
         // unsize casts (dyn table)
         for (_bb, data) in body.basic_blocks.iter_enumerated() {
